@@ -1395,6 +1395,15 @@ impl<'a> UserModel<'a> {
         column_end: i32,
         hidden: bool,
     ) -> Result<(), String> {
+        // Validate the whole request first: a failure half way would leave some columns hidden
+        self.model.workbook.worksheet(sheet)?;
+        if column_start <= column_end
+            && (!is_valid_column_number(column_start) || !is_valid_column_number(column_end))
+        {
+            return Err(format!(
+                "Column range '{column_start}:{column_end}' is not valid."
+            ));
+        }
         let mut diff_list = Vec::new();
         for column in column_start..=column_end {
             let old_value = self
@@ -1416,32 +1425,30 @@ impl<'a> UserModel<'a> {
                 if view.sheet == sheet {
                     // We select the next visible column
                     let mut column = column_end + 1;
-                    while self
-                        .model
-                        .workbook
-                        .worksheet(sheet)?
-                        .is_column_hidden(column)?
-                    {
-                        column += 1;
-                        if column > LAST_COLUMN {
-                            break;
-                        }
-                    }
-                    if column > LAST_COLUMN {
-                        // We select the previous visible column
-                        column = column_start - 1;
-                        while self
+                    while column <= LAST_COLUMN
+                        && self
                             .model
                             .workbook
                             .worksheet(sheet)?
                             .is_column_hidden(column)?
+                    {
+                        column += 1;
+                    }
+                    if column > LAST_COLUMN {
+                        // We select the previous visible column
+                        column = column_start - 1;
+                        while column >= 1
+                            && self
+                                .model
+                                .workbook
+                                .worksheet(sheet)?
+                                .is_column_hidden(column)?
                         {
                             column -= 1;
-                            if column <= 0 {
-                                // We can't find a visible column
-                                column = 1;
-                                break;
-                            }
+                        }
+                        if column < 1 {
+                            // We can't find a visible column
+                            column = 1;
                         }
                     }
                     self.set_selected_cell(1, column)?;
@@ -1463,6 +1470,11 @@ impl<'a> UserModel<'a> {
         row_end: i32,
         hidden: bool,
     ) -> Result<(), String> {
+        // Validate the whole request first: a failure half way would leave some rows hidden
+        self.model.workbook.worksheet(sheet)?;
+        if row_start <= row_end && (!is_valid_row(row_start) || !is_valid_row(row_end)) {
+            return Err(format!("Row range '{row_start}:{row_end}' is not valid."));
+        }
         let mut diff_list = Vec::new();
         for row in row_start..=row_end {
             let old_value = self.model.workbook.worksheet(sheet)?.is_row_hidden(row)?;
@@ -1480,22 +1492,20 @@ impl<'a> UserModel<'a> {
                 if view.sheet == sheet {
                     // We select the next visible row
                     let mut row = row_end + 1;
-                    while self.model.workbook.worksheet(sheet)?.is_row_hidden(row)? {
+                    while row <= LAST_ROW
+                        && self.model.workbook.worksheet(sheet)?.is_row_hidden(row)?
+                    {
                         row += 1;
-                        if row > LAST_ROW {
-                            break;
-                        }
                     }
                     if row > LAST_ROW {
                         // We select the previous visible row
                         row = row_start - 1;
-                        while self.model.workbook.worksheet(sheet)?.is_row_hidden(row)? {
+                        while row >= 1 && self.model.workbook.worksheet(sheet)?.is_row_hidden(row)? {
                             row -= 1;
-                            if row <= 0 {
-                                // We can't find a visible row
-                                row = 1;
-                                break;
-                            }
+                        }
+                        if row < 1 {
+                            // We can't find a visible row
+                            row = 1;
                         }
                     }
                     self.set_selected_cell(row, 1)?;
